@@ -1,3 +1,4 @@
+#![allow(dead_code)]
 mod gens;
 mod layout;
 mod model;
